@@ -12,6 +12,8 @@
 From Coq Require Import ZArith List Lia Bool.
 From LZ4V Require Import Gen.Consts Spec.BlockSpec Model.Mem Model.Fast Model.FastApi
      Proofs.FactorSpec Proofs.FastSound Proofs.FastApiSound Proofs.FastDestSize Proofs.FastFill.
+From LZ4V Require Model.HcMid Proofs.HcMidSound.
+From LZ4V Require Import Model.HcMidApi Proofs.HcMidApiSound.
 Import ListNotations.
 Local Open Scope Z_scope.
 
@@ -86,3 +88,20 @@ Example C17_nonvacuous :
   (let a := compress_destSize src 60 100 in (a_ret a, a_consumed a)) = (27, 60)
   /\ (let a := compress_destSize src 60 12 in (a_ret a <=? 12, a_consumed a <? 60, 0 <? a_consumed a)) = (true, true, true).
 Proof. vm_compute. split; reflexivity. Qed.
+
+(* LZ4_compress_HC_destSize at levels 1-2 (LZ4MID, fillOutput): nothing is written beyond targetDstSize, and
+   a positive result is a block that the specification decodes to exactly the first *srcSizePtr bytes. *)
+Theorem C17_hc_mid_destSize :
+  forall src srcSize target,
+    src_ok src -> 0 <= srcSize < 2147483648 -> 0 <= target ->
+    let r := compress_HC_destSize_mid src srcSize target in
+    hr_hw r <= target /\
+    (0 < hr_ret r ->
+       hr_ret r = Z.of_nat (length (hr_out r)) /\ hr_ret r <= target /\ 0 <= hr_consumed r <= srcSize /\
+       spec_decode [] (hr_out r) = Some (load_list src 0 (Z.to_nat (hr_consumed r)))).
+Proof.
+  intros src srcSize target Hs Hz Ht r. subst r.
+  destruct (compress_HC_destSize_mid_sound src srcSize target Hs Hz Ht) as (_ & H2 & H3).
+  split; [exact H2|]. intros Hp. destruct (H3 Hp) as (A & B & C & D & _). split; [exact A|]. split; [exact B|]. split; [exact C | exact D].
+Qed.
+Print Assumptions C17_hc_mid_destSize.
